@@ -95,6 +95,12 @@ def run():
     rows = info.get("based") or [("0b", 2, 32), ("0x", 16, 12), ("0o", 8, 12)]
     tbl_expr = "[" + "; ".join("(%d, %d)" % kv for kv in table) + "]"
     rows_expr = "[" + "; ".join("(%s, %d, %d%%nat)" % (coq_codes(p).replace("%N", ""), b, n) for p, b, n in rows) + "]"
+    iunits = info.get("interval_units") or ["microseconds", "milliseconds", "seconds", "minutes", "hours", "days", "weeks", "months", "years"]
+    ifields = info.get("interval_fields") or [(u, u[:-1].upper(), u == "weeks") for u in reversed(iunits)]
+    istyles = {n_: (a_, b_) for n_, a_, b_ in (info.get("interval_styles") or [(d, "NoQuotes", "NoQuotes") for d in ALL_DIALECTS])}
+    units_expr = "[" + "; ".join(coq_codes(u) for u in iunits) + "]"
+    fields_expr = "[" + "; ".join("(%s, (%s, %s))" % (coq_codes(u), coq_codes(f), "true" if w else "false") for u, f, w in ifields) + "]"
+    STY = {"NoQuotes": "INoQuotes", "ValueAndUnitQuoted": "IValueAndUnitQuoted", "ValueQuoted": "IValueQuoted"}
     model_ok = True
 
     writer_bs = dict(info.get("writer_bs") or WRITER_BS_FALLBACK.items())
@@ -250,6 +256,13 @@ def run():
     dates = sp.date_cases(ck.rng, ck.n(40, 300))
     for src, kind, exp in dates:
         lits.append((src, (kind, exp), "date"))
+    # interval literals <integer><unit>: every unit, counts with underscores, at and beyond the i64 boundary
+    for u in iunits:
+        for n_ in [0, 1, 2, 10, 59, 365, 2**31, 2**63 - 1, 2**63, 10**20, ck.rng.randrange(10**6), ck.rng.randrange(10**15)]:
+            ds = str(n_)
+            if len(ds) > 3 and ck.rng.random() < 0.5:
+                ds = ds[:-3] + "_" + ds[-3:]
+            lits.append((ds + u, ("interval", (n_, u)), "interval"))
     for src, v in (("true", ("bool", 1)), ("false", ("bool", 0)), ("null", ("null", None))):
         lits.append((src, v, "bool"))
     lex_ans = harness("lex", [{"src": l[0]} for l in lits])
@@ -257,7 +270,7 @@ def run():
     if model_ok:
         try:
             B = 50
-            exprs = ["map (lex_literal_view %s %s) [%s]" % (tbl_expr, rows_expr, "; ".join(coq_codes(l[0]) for l in lits[i:i + B])) for i in range(0, len(lits), B)]
+            exprs = ["map (lex_literal_u_view %s %s %s) [%s]" % (units_expr, tbl_expr, rows_expr, "; ".join(coq_codes(l[0]) for l in lits[i:i + B])) for i in range(0, len(lits), B)]
             model_lit = [x for v in coq_eval(HEADER, exprs) for x in v]
         except RuntimeError as ex:
             ck.coverage["model_eval_error_lit"] = str(ex)[-600:]
@@ -296,6 +309,11 @@ def run():
                 ok = iv[0] == "Float" and ((iv[1] is None and inf_spelling(exp)) or (iv[1] is not None and not inf_spelling(exp) and Fraction(iv[1]) == Fraction(float(exp))))
                 if not ok:
                     ck.violation("number spelling %r should be the float %s, lexes to %r" % (src, exp, iv), case)
+        if kind == "interval":
+            n_, u_ = pv[1]
+            if iv != ("ValueAndUnit", {"n": n_, "unit": u_}):
+                ck.disagreement("interval literal %s denotes %d %s but lexes to %r" % (src, n_, u_, iv), dict(case, count=n_),
+                                lambda c_: "C08-N1-interval-count-overflow" if c_.get("count", 0) >= 2**63 else None)
         if kind == "number:boundary":
             if iv is None:
                 ck.stat("literal-decode", "boundary-rejected")
@@ -320,7 +338,8 @@ def run():
                         mv = ("FloatDec", (int(ps), z))
                     else:
                         mv = {0: ("Null", None), 1: ("Integer", z), 3: ("Boolean", bool(z)), 4: ("String", ps),
-                              5: ("RawString", ps), 6: ("F", ps), 7: ("Date", ps), 8: ("Time", ps), 9: ("Timestamp", ps)}[tag]
+                              5: ("RawString", ps), 6: ("F", ps), 7: ("Date", ps), 8: ("Time", ps), 9: ("Timestamp", ps),
+                              10: ("ValueAndUnit", {"n": z, "unit": ps})}[tag]
             same = (mv == iv) or (mv and iv and mv[0] == "FloatDec" and iv[0] == "Float" and
                                   (iv[1] is None or abs(mv[1][1]) > 400 or f64(Fraction(mv[1][0]) * Fraction(10) ** mv[1][1]) in (None, iv[1])))
             if not same:
@@ -344,6 +363,8 @@ def run():
                 progs.append(("from u | filter c == %s | select {v = c}" % src, "sql.sqlite", ("text", value), {"lit": src, "kind": kind, "value": value, "skeleton": "filter"}))
             if src.startswith("f") and i % 2 == 0:
                 progs.append(("from t | select {v = f\"%s{c}%s\"}" % (src[2:-1], src[2:-1]), "sql.sqlite", ("text", value + "cval" + value), {"lit": src, "kind": kind, "value": value, "skeleton": "fhole"}))
+        elif kind == "interval":
+            continue          # SQLite has no INTERVAL literal: emission is checked through the hook on every dialect (stream 6)
         elif kind == "number:boundary":
             progs.append(("from t | select {v = %s}" % src, "sql.sqlite", ("intq", pv[1]), {"lit": src, "kind": kind, "skeleton": "select"}))
         elif kind.startswith("number"):
@@ -596,6 +617,29 @@ def run():
         if tag == "ValueAndUnit":
             return "RValueAndUnit"
         raise KeyError(tag)
+    # interval literals: the text depends on the dialect's interval_quoting_style, so they are keyed by dialect
+    icalls = {}
+    for (pgm, d, a, ents, pa) in per:
+        for e in ents:
+            if isinstance(e["lit"], dict) and "ValueAndUnit" in e["lit"]:
+                v_ = e["lit"]["ValueAndUnit"]
+                icalls.setdefault((d, v_["n"], v_["unit"]), e)
+    ikeys = sorted(icalls)
+    if model_ok and ikeys:
+        try:
+            iexprs = ["[%s]" % "; ".join("interval_text %s (%s, %s) (emit_int (%d)%%Z) %s" % (fields_expr, STY[istyles[d_][0]], STY[istyles[d_][1]], n_, coq_codes(u_)) for (d_, n_, u_) in ikeys[i:i + 40])
+                      for i in range(0, len(ikeys), 40)]
+            iflat = [x for v in coq_eval(HEADER.replace("Model.Literal.", "Model.Literal Model.Interval."), iexprs) for x in v]
+            for key, m in zip(ikeys, iflat):
+                e = icalls[key]
+                ck.count("literal-hook-interval", "%s|%d|%s" % key)
+                ck.stat("literal-hook-interval", istyles[key[0]][0] + "/" + istyles[key[0]][1])
+                mo = None if m == "None" else s_of(m[1])
+                if e["out"] != mo:
+                    ck.violation("translate_literal returned %r for the interval %d %s on %s; the model says %r" % (e["out"], key[1], key[2], key[0], mo),
+                                 {"kind": "hook-interval", "dialect": key[0], "entry": e, "model": mo})
+        except RuntimeError as ex:
+            ck.coverage["model_eval_error_interval"] = str(ex)[-600:]
     ckeys = sorted(calls, key=lambda x: (x[2], x[0], x[1]))
     model_out = {}
     if model_ok and ckeys:
@@ -618,7 +662,7 @@ def run():
         m = model_out[key]
         if m == "None":
             ck.stat("literal-hook", "not-modelled:" + tag)
-            if tag not in ("Float", "ValueAndUnit"):
+            if tag not in ("Float", "ValueAndUnit"):      # floats: stream float-text (decimal value); intervals: literal-hook-interval
                 ck.violation("model emit_rlit has no output for a %s literal" % tag, {"kind": "hook-model", "entry": e})
             continue
         mo = s_of(m[1])
